@@ -139,8 +139,8 @@ def main_wrapper(pid: str, fn) -> int:
     args, _ = ap.parse_known_args(sys.argv[2:])
     seed = int(os.environ.get("VERIF_SEED", "0") or 0)
     chk = Check(pid, args.tier, seed)
-    if args.tier == "thorough":
-        os.environ.setdefault("FJV_COVERAGE", "1")
+    # per-action coverage (TLC -coverage 1) is opt-in (FJV_COVERAGE=1): with the recursive operators of these specs it made a
+    # 7-second model-checking run exhaust a 4 GB heap, so no tier turns it on by itself
     try:
         fn(chk, replay=args.replay)
         return chk.finish()
